@@ -1,12 +1,12 @@
 PROP = dict(
     id='C13', level='exploration',
     pyvc=['contracts.c13'],
-    finite=['finite.regex:oal_tokens'],
+    finite=['finite.regex:oal_tokens', 'finite.frames:oal_rule_raises'],
     bounded='bounded.c13',
     bounded_budget=dict(quick=45, thorough=420),
     assumptions=[],
     trusted_base=['z3 5.1 / cvc5 1.0.3', 'pyvc symbolic executor and its encoding of Python (DESIGN.md section 2.3)', 'CPython 3.12, PLY 3.11 (A-PLY)'],
-    manifest=dict(text='Deductive/finite core (tiers P+F, 337 obligations): find_column, set_positional_info (node positions from the first and last symbol of the production), line/column bookkeeping of every token rule; no token regex is exponentially ambiguous. Bounded: totality and bounded time on random strings, token sequences, single-edit mutants and growth families; positions compared with an independent tokenizer on generated programs with random layout.',
+    manifest=dict(text='Deductive/finite core (tiers P+F, 506 obligations): find_column, set_positional_info (node positions from the first and last symbol of the production), line/column bookkeeping of every token rule; no token regex is exponentially ambiguous; every raise statement in a rule function of the grammar raises ParseException (169 syntactic obligations, one per rule). Bounded: totality and bounded time on random strings, token sequences, single-edit mutants and growth families; positions compared with an independent tokenizer on generated programs with random layout.',
                   note='PLY span bookkeeping with tracking=1 (A-PLY).',
                   technique='bounded stand-in (run-time contracts on the real functions driven by small-scope enumeration; labelled bounded, never counted as proved) decides the property sentence; contract-based deductive verification: sidecar contracts on the real functions, verification conditions generated from the current source of /repo on every run by pyvc (Python AST -> z3/cvc5), every obligation discharged function by function for the listed kernel functions (tier P) and finite-state obligations decided exactly on the LALR(1) table / token regular expressions regenerated from the current source (tier F), reported separately'),
 )
